@@ -369,14 +369,21 @@ func (c *c20) execCx(f []string) string {
 				go serve(ln)
 			}
 		case a == "r":
+			destroyedBefore := metric("downstream.cx_destroy_total")
 			p.OnSvcHostRemove([]*host.Host{host.New(addr)})
+			cut := uint64(0)
 			for _, pr := range conns {
 				if pr.cli != nil && pr.be != nil {
 					waitGone(pr.cli)
 					pr.cli.Close()
 					pr.be.Close()
 					pr.cli, pr.be = nil, nil
+					cut++
 				}
+			}
+			// the next action must see the registry without these connections (as after c<i> / b<i>)
+			for k := 0; k < 500 && metric("downstream.cx_destroy_total") < destroyedBefore+cut; k++ {
+				time.Sleep(2 * time.Millisecond)
 			}
 		case a == "a":
 			p.OnSvcHostAdd([]*host.Host{host.New(addr)})
